@@ -10,7 +10,7 @@
   It is FALSE for the code as it is (`not_refsResolve`): `save` names folders by POSITION in
   `childobjects`, `addObject` by the parent's `folder` attribute at attach time or by the caller's name.
   Proved: `ref_names_folder_partial` (default names, parents attached to the root chain first) and the
-  three counter-examples `finding_*`; for `load`: `reload_keeps_refs_partial` and `finding_noncontiguous`.
+  three counter-examples `finding_*`; for `load`: `reload_keeps_refs_partial`, `finding_noncontiguous`, `finding_permuted_manifest_order`.
 -/
 import OdfModel.Pkg
 import OdfModel.Props.C03
@@ -377,6 +377,24 @@ theorem finding_noncontiguous :
     (load pkgObject7).map (fun d => (d.children.map (·.folder), (save d).man.any (fun e => e.path == objPrefix 1),
         (save d).man.any (fun e => e.path == objPrefix 7), reloadOK pkgObject7))
       = some ([[47, 79, 98, 106, 101, 99, 116, 32, 55]], true, false, false) := by
+  decide
+
+/-- "Object 1/" (media type A) and "Object 2/" (media type B), the manifest listing "Object 2/" first -/
+def pkgPermuted : Package :=
+  ⟨some sOdt,
+   [(sSlash, sOdt), (sContent, sTextXml), (sStyles, sTextXml),
+    (objPrefix 2, mtB), (objPrefix 2 ++ sContent, sTextXml), (objPrefix 2 ++ sStyles, sTextXml),
+    (objPrefix 1, mtA), (objPrefix 1 ++ sContent, sTextXml), (objPrefix 1 ++ sStyles, sTextXml)],
+   [(sContent, [60]), (sStyles, [60]), (objPrefix 2 ++ sContent, [60]), (objPrefix 2 ++ sStyles, [60]),
+    (objPrefix 1 ++ sContent, [60]), (objPrefix 1 ++ sStyles, [60])], []⟩
+
+/-- **finding KF-C16-8** (`sig=permuted-manifest-order`): the folders are numbered 1, 2 but listed as 2, 1:
+    the sub-document loaded from "Object 2/" (id 1, media type B) is re-stored as "Object 1/", so after
+    load + save "Object 2/" is declared with media type A and holds the other sub-document. -/
+theorem finding_permuted_manifest_order :
+    (load pkgPermuted).map (fun d => (d.children.map (fun c => (c.id, c.folder)),
+        (save d).man.any (fun e => e.path == objPrefix 2 && e.mediatype == mtA), reloadOK pkgPermuted))
+      = some ([(1, [47, 79, 98, 106, 101, 99, 116, 32, 50]), (2, [47, 79, 98, 106, 101, 99, 116, 32, 49])], true, false) := by
   decide
 
 theorem not_reloadKeepsRefs : ¬ ReloadKeepsRefs := by
